@@ -6,6 +6,7 @@ import (
 
 	remoteexecution "github.com/bazelbuild/remote-apis/build/bazel/remote/execution/v2"
 	"github.com/buildbarn/bb-storage/pkg/digest"
+	"google.golang.org/protobuf/encoding/protowire"
 	"google.golang.org/protobuf/proto"
 	"google.golang.org/protobuf/types/known/timestamppb"
 	"google.golang.org/protobuf/types/known/wrapperspb"
@@ -130,20 +131,21 @@ func (g *gen) content(label string) []byte {
 // in a Tree, stdout, stderr).
 func (g *gen) fileDigest(label string) *remoteexecution.Digest {
 	data := g.content(label)
-	how := g.n(0, 59, label+"/how")
+	how := g.n(0, 99, label+"/how")
+	// rapid favours small values: the plain shape is 0.
 	switch {
-	case how <= 2:
+	case how >= 93 && how <= 96:
 		return nil // absent
 	case g.clean:
-	case how == 3:
+	case how == 97:
 		// present but empty message: hash "" is malformed
 		g.pos++
 		return &remoteexecution.Digest{}
-	case how == 4:
+	case how == 98:
 		// well-formed, names no stored object (size off by one)
 		pd := g.register(data)
 		return g.position(&remoteexecution.Digest{Hash: pd.Hash, SizeBytes: pd.SizeBytes + 1}, label)
-	case how == 5:
+	case how == 99:
 		// well-formed, names an object nobody ever stored
 		g.ghost++
 		return g.position(g.protoDigest([]byte(fmt.Sprintf("ghost-%d", g.ghost))), label)
@@ -161,7 +163,7 @@ type treeBuild struct {
 }
 
 func (g *gen) nodeProperties(label string) *remoteexecution.NodeProperties {
-	if g.n(0, 7, label+"/props") != 0 {
+	if g.n(0, 7, label+"/props") != 7 {
 		return nil
 	}
 	return &remoteexecution.NodeProperties{
@@ -193,10 +195,10 @@ func (g *gen) genDir(depth int, label string, tb *treeBuild) *remoteexecution.Di
 			how := g.n(0, 11, cl+"/how")
 			var child *remoteexecution.Directory
 			switch {
-			case how == 0 && len(tb.children) > 0:
+			case how == 10 && len(tb.children) > 0:
 				// shared: an already listed directory once more
 				child = tb.children[g.n(0, len(tb.children)-1, cl+"/share")]
-			case how == 1 && !g.clean:
+			case how == 11 && !g.clean:
 				// names a directory that is not part of the Tree
 				g.ghost++
 				child = &remoteexecution.Directory{Symlinks: []*remoteexecution.SymlinkNode{{Name: fmt.Sprintf("ghost-%d", g.ghost), Target: "x"}}}
@@ -210,12 +212,12 @@ func (g *gen) genDir(depth int, label string, tb *treeBuild) *remoteexecution.Di
 			node := &remoteexecution.DirectoryNode{Name: fmt.Sprintf("d%d", j)}
 			cb := mustMarshal(child)
 			var pd *remoteexecution.Digest
-			if how == 1 && !g.clean {
+			if how == 11 && !g.clean {
 				pd = g.protoDigest(cb)
 			} else {
 				pd = g.register(cb)
 			}
-			if g.n(0, 19, cl+"/nodigest") != 0 {
+			if g.n(0, 19, cl+"/nodigest") != 19 {
 				node.Digest = g.position(pd, cl)
 			}
 			d.Directories = append(d.Directories, node)
@@ -237,17 +239,17 @@ func (g *gen) genTree(label string) *treeBuild {
 			children[i], children[j] = children[j], children[i]
 		}
 	}
-	if len(children) > 0 && g.n(0, 7, label+"/dup") == 0 {
+	if len(children) > 0 && g.n(0, 7, label+"/dup") == 7 {
 		children = append(children, children[g.n(0, len(children)-1, label+"/dupwhich")])
 	}
-	if g.n(0, 7, label+"/orphan") == 0 {
+	if g.n(0, 7, label+"/orphan") == 7 {
 		// a directory listed in the Tree that no other directory names
 		o := g.genDir(0, label+"/orphan", tb)
 		g.register(mustMarshal(o))
 		children = append(children, o)
 	}
 	tree.Children = children
-	if g.n(0, 15, label+"/noroot") == 0 {
+	if g.n(0, 15, label+"/noroot") == 15 {
 		tree.Root = nil
 	}
 	tb.bytes = mustMarshal(tree)
@@ -256,7 +258,29 @@ func (g *gen) genTree(label string) *treeBuild {
 	return tb
 }
 
-var faultKinds = []string{"trunc_rehash", "corrupt_rehash", "insert_rehash", "trunc_stale", "corrupt_stale", "extend_stale", "not_a_tree", "read_error", "unknown_field"}
+var faultKinds = []string{"trunc_rehash", "trunc_boundary_rehash", "corrupt_rehash", "insert_rehash", "trunc_stale", "corrupt_stale", "extend_stale", "not_a_tree", "read_error", "unknown_field"}
+
+// lastTopLevelField locates the last field of a marshalled message that
+// uses the length-delimited wire type.
+func lastTopLevelField(b []byte) (start, header int, payload []byte) {
+	start = -1
+	for off := 0; off < len(b); {
+		_, typ, nt := protowire.ConsumeTag(b[off:])
+		if nt < 0 {
+			break
+		}
+		n := protowire.ConsumeFieldValue(0, typ, b[off+nt:])
+		if n < 0 {
+			break
+		}
+		if typ == protowire.BytesType {
+			v, _ := protowire.ConsumeBytes(b[off+nt:])
+			start, header, payload = off, nt+n-len(v), v
+		}
+		off += nt + n
+	}
+	return
+}
 
 func appendVarint(b []byte, v uint64) []byte {
 	for v >= 0x80 {
@@ -280,6 +304,27 @@ func (g *gen) applyFault(tb *treeBuild, kind string, streamed map[digest.Digest]
 			return
 		}
 		mut = append([]byte(nil), orig[:g.n(0, len(orig)-1, "fault/cut")]...)
+	case "trunc_boundary_rehash":
+		// Cut inside the last top-level field, right after one of its
+		// inner fields: the remainder of that field parses on its own,
+		// only the announced length gives the truncation away.
+		start, header, payload := lastTopLevelField(orig)
+		if start < 0 {
+			return
+		}
+		var cuts []int
+		for off := 0; off < len(payload); {
+			cuts = append(cuts, off)
+			_, _, n := protowire.ConsumeField(payload[off:])
+			if n < 0 {
+				break
+			}
+			off += n
+		}
+		if len(cuts) == 0 {
+			return
+		}
+		mut = append([]byte(nil), orig[:start+header+cuts[g.n(0, len(cuts)-1, "fault/cut")]]...)
 	case "corrupt_rehash", "corrupt_stale":
 		if len(orig) == 0 {
 			return
@@ -361,9 +406,9 @@ func (g *gen) genActionResult(trees []*treeBuild, ndirs int) *remoteexecution.Ac
 		l := fmt.Sprintf("of%d", i)
 		f := &remoteexecution.OutputFile{Path: fmt.Sprintf("out/%d", i), IsExecutable: g.n(0, 1, l+"/x") == 1, NodeProperties: g.nodeProperties(l + "/p")}
 		switch g.n(0, 5, l+"/inline") {
-		case 0: // inlined only
+		case 4: // inlined only
 			f.Contents = []byte("inlined")
-		case 1: // both
+		case 5: // both
 			f.Contents = []byte("content-1")
 			f.Digest = g.fileDigest(l)
 		default:
@@ -380,23 +425,23 @@ func (g *gen) genActionResult(trees []*treeBuild, ndirs int) *remoteexecution.Ac
 			tb = trees[g.n(0, len(trees)-1, l+"/tree")]
 		}
 		od := &remoteexecution.OutputDirectory{Path: fmt.Sprintf("dir/%d", i), IsTopologicallySorted: g.n(0, 1, l+"/sorted") == 1}
-		how := g.n(0, 29, l+"/treehow")
+		how := g.n(0, 39, l+"/treehow")
 		switch {
-		case how == 0 && !g.clean:
+		case how == 38 && !g.clean:
 			// no tree digest
-		case how == 1 && !g.clean:
+		case how == 39 && !g.clean:
 			od.TreeDigest = g.position(&remoteexecution.Digest{Hash: tb.digest.Hash, SizeBytes: tb.digest.SizeBytes + 1}, l+"/tree")
 		default:
 			od.TreeDigest = g.position(tb.digest, l+"/tree")
 		}
 		how = g.n(0, 9, l+"/roothow")
 		switch {
-		case how <= 3:
+		case how >= 5 && how <= 7:
 			// no root directory digest
-		case how == 4:
+		case how == 8:
 			// some other stored object
 			od.RootDirectoryDigest = g.position(g.register([]byte("content-0")), l+"/root")
-		case how == 5 && !g.clean:
+		case how == 9 && !g.clean:
 			g.ghost++
 			od.RootDirectoryDigest = g.position(g.protoDigest([]byte(fmt.Sprintf("ghost-%d", g.ghost))), l+"/root")
 		default:
@@ -406,11 +451,11 @@ func (g *gen) genActionResult(trees []*treeBuild, ndirs int) *remoteexecution.Ac
 	}
 	std := func(l string) ([]byte, *remoteexecution.Digest) {
 		switch g.n(0, 5, l+"/how") {
-		case 0, 1:
+		case 2, 4:
 			return nil, nil
-		case 2:
+		case 3:
 			return []byte("raw output"), nil
-		case 3, 4:
+		case 0, 1:
 			return nil, g.fileDigest(l)
 		}
 		return []byte("content-2"), g.fileDigest(l)
